@@ -277,6 +277,25 @@ theorem tileHashReader_ReadHashes_tie (fuel h N : Nat) (th : H) (idx : List Nat)
   have hlen := planTiles_length h N h1 hN idx
   exact ReadHashes_eq node ofBytes fuel h N th idx RT serve h1 h57 hN hserve (by omega) (by omega)
 
+/-- the same tie with the `badTile` text pinned down (`MsgRefine`, about the SAME `msg`): for a successful plan with a
+    non-empty tree-hash index list, when `ReadTiles` returned no error and the right number of tiles, a failed width check gives
+    "TileReader returned bad result slice (%v len=%d, want %d)", and a `badTile` after a passed width check is one of the three
+    `HashFromTile` texts (`HftMsg`).  (Used to compose with the sumdb client model, whose errors separate the two.) -/
+theorem tileHashReader_ReadHashes_tie_msg (fuel h N : Nat) (th : H) (idx : List Nat)
+    (RT : List Generated.Tile.Tile → List Bytes × Option String) (serve : Tile.Tile → Option (List H))
+    (h1 : 1 ≤ h) (h57 : h ≤ 57) (hN : N < 2 ^ 62) (hidx : idx.length < 2 ^ 56)
+    (hserve : ServeRel ofBytes RT serve (planTiles h N idx)) (hf : 64 * idx.length + 500 ≤ fuel) :
+    ∃ msg, Generated.Tile.tileHashReader_ReadHashes node ofBytes fuel
+        { tree := { N := (N : Int), Hash := th }, tr := { Height := (h : Int), ReadTiles := RT } } (idx.map Int.ofNat) =
+      .ok (rhOut (Tile.readHashes node N th h idx serve) ((planTiles h N idx).map toGen)
+        (RT ((planTiles h N idx).map toGen)).1 msg) ∧
+      (∀ e, (Tile.readHashes node N th h idx serve).result = .error e → MsgOK (RT ((planTiles h N idx).map toGen)).2 e msg) ∧
+      (∀ p, Tile.plan h N idx = .ok p → p.stx ≠ [] →
+        MsgRefine ofBytes (planTiles h N idx) (RT ((planTiles h N idx).map toGen)).1 (RT ((planTiles h N idx).map toGen)).2
+          (Tile.readHashes node N th h idx serve).result msg) := by
+  have hlen := planTiles_length h N h1 hN idx
+  exact ReadHashes_eq_msg node ofBytes fuel h N th idx RT serve h1 h57 hN hserve (by omega) (by omega)
+
 /-- ★ … and for EVERY `ReadTiles` function there is such a model server: whatever a `TileReader` does, the generated
     `ReadHashes` behaves like the model against SOME tile server (so every theorem of `Props/C10.lean` that holds against
     all servers — `readHashes_authenticated`, `error_saves_nothing` — speaks about the generated code). -/
